@@ -137,10 +137,11 @@ inductive GoodRunCon (norm : Text → Text) : Text → List Op → Prop where
 
 /-! ### `--merge-copyrights` -/
 
-/-- the notices `--merge-copyrights` merges in this invocation: the requested ones and those of the old header block -/
+/-- the notices `--merge-copyrights` merges in this invocation: the requested ones and those of the old header block, in the
+    order in which `merge_copyright_lines` meets them (`for line in sorted(copyright_lines)`) -/
 def mergePool (o : Op) (t : Text) : List Text :=
-  if (sectionsOf o.c o.replace t).2.1.isEmpty then o.info.cpr
-  else unionTexts o.info.cpr (extractRaw (sectionsOf o.c o.replace t).2.1).cpr
+  sortTexts (if (sectionsOf o.c o.replace t).2.1.isEmpty then o.info.cpr
+    else unionTexts o.info.cpr (extractRaw (sectionsOf o.c o.replace t).2.1).cpr)
 
 /-- the years lint reads from a merged year range: its two ends, or the single year -/
 def endYears (ys : List Text) : List Text :=
